@@ -48,7 +48,10 @@ EXPLANATION = (
     "tails drain the right side; the operands are not written (effect "
     "summary); the n-ary forms fold the binary operators left to right. "
     "Not decided: tuple un-nesting in intersection()/union(), "
-    "leader-follower lookups, ANY-padded prefix matching (value-dependent).")
+    "leader-follower lookups.  (R7) the ANY-padded projection of the "
+    "shorter-arity operand has, as a symbolic tuple length over the two "
+    "arities, exactly the longer operand's arity in the int and in the "
+    "tuple case.")
 RULE = ("per operator: recognition, three-way split, per-branch advance set, "
         "per-branch/tail emission, emitted coordinate/slots/mask, tails, "
         "operand purity; plus the n-ary fold shape; distinct = distinct "
